@@ -31,4 +31,6 @@ type SignatureProposalConfirmationErrorRequest struct {
 	ParticipantId int
 	Error         *FSMError
 	CreatedAt     time.Time
+	// BatchID names the signing batch the report was made for (empty in reports of older versions)
+	BatchID string
 }
